@@ -434,6 +434,21 @@ func retype(v Value, t types.Type) Value {
 func retypeStruct(old, new types.Type) types.Type { return new }
 
 func (u *Unit) fieldAddr(base Value, structT types.Type, i int) Value {
+	// address of the single field of an opaque scalar wrapper (metav1.Time{Time}, metav1.Duration{Duration}): the
+	// wrapper IS its field in the model, so the field lives in the wrapper's own cell
+	if _, op := isOpaqueScalar(structT); op {
+		if st0, isSt := structT.Underlying().(*types.Struct); isSt && st0.NumFields() == 1 {
+			ft := st0.Field(0).Type()
+			if scalarSort(ft) == scalarSort(structT) {
+				switch b := base.(type) {
+				case LocPtr:
+					return LocPtr{Fam: b.Fam, Idx: b.Idx, Typ: ft}
+				case Sc:
+					return LocPtr{Fam: cellFam(structT), Idx: b.T, Typ: ft}
+				}
+			}
+		}
+	}
 	sc, ok := base.(Sc)
 	if !ok {
 		u.unsupported("FieldAddr on non-reference pointer")
@@ -898,6 +913,11 @@ func (u *Unit) mapLookup(v *HeapView, mt types.Type, ref, key Term) (val Value, 
 	if isEmptyStruct(vt) {
 		return &StructV{Typ: vt, Zero: true}, present
 	}
+	if ft, single := singleScalarStruct(vt); single {
+		srt := scalarSort(ft)
+		raw := Select(Select(u.viewGet(v, mapValFam(mt), ArrSort(SInt, ArrSort(ks, srt))), ref), key)
+		return &StructV{Typ: vt, Fields: map[int]Value{0: Sc{Ite(present, raw, u.zeroTerm(srt)), ft}}}, present
+	}
 	if isStructType(vt) {
 		u.unsupported("map with struct values " + shortType(mt))
 		return u.freshValue(vt, "mv"), present
@@ -988,6 +1008,16 @@ func (u *Unit) mapStore(st *State, mt types.Type, ref, key Term, val Value) {
 	u.heapSet(st, domFam, Store(domArr, ref, newDom))
 	if isEmptyStruct(vt) {
 		return
+	}
+	if ft, single := singleScalarStruct(vt); single {
+		if sv, ok := val.(*StructV); ok {
+			srt := scalarSort(ft)
+			fam := mapValFam(mt)
+			arr := u.heapGet(st, fam, ArrSort(SInt, ArrSort(ks, srt)))
+			fv := u.asSc(u.fieldOfStruct(sv, 0), ft)
+			u.heapSet(st, fam, Store(arr, ref, Store(Select(arr, ref), key, u.coerce(fv.T, srt))))
+			return
+		}
 	}
 	if isStructType(vt) {
 		u.unsupported("map with struct values " + shortType(mt))
